@@ -172,6 +172,31 @@ impl MergeWithError<Foreign> for Rec {
     }
 }
 
+/// a second recording error type, used as a *field-level* error type (`#[deserr(error = Rec2)]`): it records like `Rec`
+/// and is handed over to `Rec` through `MergeWithError<Rec2> for Rec` (one hand-over event at the merge location)
+#[derive(Clone, Copy, Debug)]
+pub struct Rec2(pub Rec);
+impl DeserializeError for Rec2 {
+    fn error<V: IntoValue>(self_: Option<Self>, error: ErrorKind<V>, location: ValuePointerRef) -> ControlFlow<Self, Self> {
+        match <Rec as DeserializeError>::error::<V>(self_.map(|r| r.0), error, location) { ControlFlow::Continue(r) => ControlFlow::Continue(Rec2(r)), ControlFlow::Break(r) => ControlFlow::Break(Rec2(r)) }
+    }
+}
+impl MergeWithError<Rec2> for Rec2 {
+    fn merge(self_: Option<Self>, other: Rec2, merge_location: ValuePointerRef) -> ControlFlow<Self, Self> {
+        match <Rec as MergeWithError<Rec>>::merge(self_.map(|r| r.0), other.0, merge_location) { ControlFlow::Continue(r) => ControlFlow::Continue(Rec2(r)), ControlFlow::Break(r) => ControlFlow::Break(Rec2(r)) }
+    }
+}
+impl MergeWithError<Foreign> for Rec2 {
+    fn merge(self_: Option<Self>, other: Foreign, merge_location: ValuePointerRef) -> ControlFlow<Self, Self> {
+        match <Rec as MergeWithError<Foreign>>::merge(self_.map(|r| r.0), other, merge_location) { ControlFlow::Continue(r) => ControlFlow::Continue(Rec2(r)), ControlFlow::Break(r) => ControlFlow::Break(Rec2(r)) }
+    }
+}
+impl MergeWithError<Rec2> for Rec {
+    fn merge(self_: Option<Self>, other: Rec2, merge_location: ValuePointerRef) -> ControlFlow<Self, Self> {
+        <Rec as MergeWithError<Rec>>::merge(self_, other.0, merge_location)
+    }
+}
+
 // ---- the trace laws of DESIGN §3.3, executable ------------------------------------------------------------
 
 /// S1: an event answered Break is followed, if by anything, by a hand-over
